@@ -46,10 +46,16 @@ def cases(tier, seed):
         for place in (0, 5):
             for (kind, init) in KINDS:
                 w = 4 if kind == "sum32" else 2
-                for buf in ["none", "0", "2", str(ds)]:
+                for buf in ["none", "0", "2", str(ds), "top"]:
                     msize = place + w + ds + 2
                     old, new = rhex(rnd, ds), rhex(rnd, ds)
-                    setup = ["ps.init %d 00 %d %s %d %d %s" % (msize, place, kind, init, ds, buf), "ps.store %s" % old]
+                    pre = []
+                    if buf == "top":
+                        # the same store in a window that ends with the 32-bit address space (last data octet at 0xffffffff)
+                        msize = place + w + ds
+                        pre = ["ps.relocate %d" % (2 ** 32 - msize)]
+                        buf = rnd.choice(["none", "2"])
+                    setup = pre + ["ps.init %d 00 %d %s %d %d %s" % (msize, place, kind, init, ds, buf), "ps.store %s" % old]
                     # number of accesses of each op is not known to the generator: inject at positions 0..ds+4
                     stores = [("ps.store %s" % new, ds)] + [("ps.storepart %s %d" % (rhex(rnd, l), o), l)
                                                             for (o, l) in [(0, 1), (ds - 1, 1), (ds // 2, max(1, ds // 2))] if o + l <= ds]
